@@ -934,6 +934,15 @@ private:
     {
       if (opcode == WsOpcode::TEXT)
       {
+        // RFC 6455 §8.1: a text message that is not valid UTF-8 fails the
+        // connection (1007) and is not delivered - as WebSocketServer does.
+        WebSocketFrame check;
+        check.payload = payload;
+        if (!check.isValidUtf8())
+        {
+          sendClose(1007, "Invalid UTF-8");
+          return;
+        }
         if (_onTextMessage)
         {
           std::string text(payload.begin(), payload.end());
